@@ -3,6 +3,7 @@ import Driver.Containers
 import Driver.Object
 import Driver.Render
 import Driver.Fetch
+import Driver.StyleOps
 
 /-
   One function per op of the line protocol.  Each takes the op's JSON (which also carries the
@@ -15,16 +16,6 @@ namespace Ops
 
 def cellJson (m : Ansi.RawCell) : Json :=
   Json.arr #[js m.pre, js [m.letter], js m.full]
-
-def implStr (j : Json) : Str :=
-  match j.getObjVal? "impl" with
-  | .ok (Json.str s) => s.toList
-  | _ => []
-
-def implIsStr (j : Json) : Bool :=
-  match j.getObjVal? "impl" with
-  | .ok (Json.str _) => true
-  | _ => false
 
 def ansiOp (op : String) (j : Json) : Except String Res := do
   match op with
@@ -109,7 +100,7 @@ def ansiOp (op : String) (j : Json) : Except String Res := do
     let s ← str j "s"
     let out := implStr j
     pure { model := js (Ansi.scrub s),
-           preds := [("scrub_noctl", out.all fun c => c = '\n' || !Uni.isControl c)],
+           preds := [("scrub_noctl", out.all fun c => c = '\n' || !Uni.isControl c), ("safe_output", Safe.safe out)],
            nontrivial := s.any fun c => Uni.isControl c }
   | "squash" =>
     let s ← str j "s"
@@ -137,6 +128,8 @@ def dispatch (j : Json) : Except String Res := do
   | "config" => configOp j
   | "hook" => hookOp j
   | "render" => renderOp j
+  | "styleexpr" => styleExprOp j
+  | "problem" => problemOp j
   | "statusline" | "ctline" | "locline" | "headers" => jtpLineOp op j
   | "fetchseq" => fetchSeqOp j
   | "webfinger" => webfingerOp j
